@@ -187,6 +187,8 @@ def main(argv=None):
                 nb_obl += 1
             else:
                 n_obl += 1
+            if o["verdict"] == "also-failing":
+                continue        # same named obligation already refuted on another path of this unit (reported once)
             if o["verdict"] == "unsat":
                 u_dis += 1
                 if isb:
